@@ -16,6 +16,12 @@ def EndP (P : Ctx → Prop) : End → Prop
   | .normal s => P s.ctx
   | .fault _ => True
 
+theorem OutcomeP.mono {P Q : Ctx → Prop} {o : Outcome} (h : OutcomeP P o) (f : ∀ c, P c → Q c) : OutcomeP Q o := by
+  cases o with
+  | cont c => exact f c h
+  | died c => exact f c h
+  | fault w => trivial
+
 structure OpsPreserve (P : Ctx → Prop) : Prop where
   next : ∀ c, P c → OutcomeP P (opNext c)
   insert : ∀ c, P c → OutcomeP P (opInsert c)
